@@ -36,5 +36,21 @@ if "<!-- BEGIN AUTO FINDINGS" in s:
     s = re.sub(r"<!-- BEGIN AUTO FINDINGS.*?<!-- END AUTO FINDINGS -->", lambda m: block, s, flags=re.S)
 else:
     s = s.rstrip() + "\n\n" + block + "\n"
+# ---- seeded changes
+import glob
+rows = []
+for mf in sorted(glob.glob(os.path.join(V, "seeded", "*", "meta.json"))):
+    m = json.load(open(mf))
+    rows.append("| `%s` | %s | %s | %s | %s |" % (m["seed_id"], m["property"], m["mechanism"].replace("|", "/"), m["needs_to_manifest"].replace("|", "/"), m["detection"].replace("|", "/")))
+blk = ["<!-- BEGIN AUTO SEEDED -->", "### 10.5 Seeded changes (independent sub-agents, property text only) and which checks catch them", "",
+       "Each change was written by a fresh sub-agent that saw only the property text and its own scratch worktree, compiles, passes the repository's suite",
+       "(confirmed by the main session in a scratch worktree: demo fails with / passes without the change, stable tests pass) and is kept under `seeded/<id>/`",
+       "(patch.diff, demo.cpp, build.sh, author_notes.txt, meta.json). Detection was measured with `tools/mutant_test.sh` (same binaries and budgets as the quick tier).", "",
+       "| seed | property | mechanism | needs | caught by |", "|---|---|---|---|---|"] + rows + ["<!-- END AUTO SEEDED -->"]
+blk = "\n".join(blk)
+if "<!-- BEGIN AUTO SEEDED" in s:
+    s = re.sub(r"<!-- BEGIN AUTO SEEDED.*?<!-- END AUTO SEEDED -->", lambda m: blk, s, flags=re.S)
+else:
+    s = s.rstrip() + "\n\n" + blk + "\n"
 open(p, "w").write(s)
 print("DESIGN.md: %d fixed, %d findings" % (len(k["fixed"]), len(k["findings"])))
